@@ -439,6 +439,10 @@ def module_family(pid, tier, chk, n=None):
     elif pid == "C11":
         cases += DM.key_cases(chk, m)
         what += " + %d wide-alphabet key sets (quotes, backslashes, hyphens, dots, non-ASCII; in and out of the documented domain)" % m
+    if pid in ("C03", "C04", "C11"):
+        rn = DM.reserved_name_cases(chk, 120 if quick else 2000)
+        cases += rn
+        what += " + %d keys named after what the module imports (pseudo-types, typing, framework names; as written / snake case; class / field)" % len(rn)
     elif pid == "C12":
         cases = cases[: n // 2] + DM.tree_cases(chk, m)
         what += " + %d tree-shaped inputs rendered in both layouts" % m
